@@ -78,6 +78,7 @@ class Rig:
         self.evs = []
         self.errors = []
         self.applied = {}
+        self.chained = []       # requests submitted from a completion callback, not yet in the log: (IOCB number, destination index)
 
     def emit(self, node, octets, dest):
         self.frame_no += 1
@@ -117,7 +118,31 @@ class Rig:
         return "other"
 
     def log(self, op, k=0, d=0, exc="", u=False):
-        self.evs.append(dict(op=op, k=k, d=d, exc=exc, u=u, s=self.snapshot()))
+        # a request the application submitted from inside a completion callback is part of the step that ran the callback: it
+        # gets an entry of its own ("chained": which IOCB, for which destination -- inputs) with the same post-state
+        snap = self.snapshot()
+        if op == "request":
+            self.evs.append(dict(op=op, k=k, d=d, exc=exc, u=u, s=snap))
+        for k2, d2 in self.chained:
+            self.evs.append(dict(op="chained", k=k2, d=d2, exc="", u=False, s=snap))
+        self.chained = []
+        if op != "request":
+            self.evs.append(dict(op=op, k=k, d=d, exc=exc, u=u, s=snap))
+
+    def chain(self, d):
+        """called from a completion callback: the usual "read the next one" -- another request to the same device"""
+        k = len(self.iocbs)
+        asked = self.PROPS[k % len(self.PROPS)]
+        iocb = IOCB(ReadPropertyRequest(objectIdentifier=("analogValue", 1), propertyIdentifier=asked, destination=Address(d)))
+        self.iocbs.append(iocb)
+        self.asked.append(asked)
+        self.cb.append(0)
+
+        def done(i, k=k):
+            self.cb[k] += 1
+        iocb.add_callback(done)
+        self.chained.append((k + 1, self.dests.index(d) + 1))
+        self.c.app.request_io(iocb)
 
     def guarded(self, fn, *a, drain=True):
         try:
@@ -181,6 +206,8 @@ class Rig:
 
         def done(i, k=k):
             self.cb[k] += 1
+            if kind == "n" and self.cb[k] == 1:
+                self.chain(d)
         iocb.add_callback(done)
         exc = self.guarded(self.c.app.request_io, iocb, drain=False)
         self.log("request", k + 1, self.dests.index(d) + 1, exc, u=(kind == "u"))
@@ -188,7 +215,8 @@ class Rig:
 
     def run(self, plan, faults, rng=None, limit=4000):
         """plan: list of (time_ms, dest[, kind]) requests -- kind "c" confirmed through an IOCB (default), "u" unconfirmed
-        through an IOCB, "d" unconfirmed without one; faults: {frame number: 'drop'|'dup'|'delay'}"""
+        through an IOCB, "d" unconfirmed without one, "a" give up a queued one, "n" confirmed with a completion callback that
+        submits the next request to the same destination; faults: {frame number: 'drop'|'dup'|'delay'}"""
         plan = sorted((tuple(p) for p in plan), key=lambda p: p[0])       # (stable: entries of one instant keep their order)
         faults = dict(faults)
         for _ in range(limit):
@@ -244,8 +272,8 @@ N == Traces[tid].n
 Pad(s, dflt) == [k \\in K |-> IF k <= Len(s) THEN s[k] ELSE dflt]
 TInit == Init /\\ tid \\in 1..Len(Traces) /\\ l = 1 /\\ rej = 0 /\\ viol = {}
 Bind(e) == /\\ st' = Pad(e.s.st, "idle") /\\ cb' = Pad(e.s.cb, 0)
-           /\\ dest' = IF e.op = "request" THEN [dest EXCEPT ![e.k] = e.d] ELSE dest
-           /\\ unc' = IF e.op = "request" THEN [unc EXCEPT ![e.k] = e.u] ELSE unc
+           /\\ dest' = IF e.op \\in {"request", "chained"} THEN [dest EXCEPT ![e.k] = e.d] ELSE dest
+           /\\ unc' = IF e.op \\in {"request", "chained"} THEN [unc EXCEPT ![e.k] = e.u] ELSE unc
            /\\ active' = [d \\in D |-> e.s.active[d]] /\\ pend' = [d \\in D |-> e.s.pend[d]]
            /\\ trig' = [d \\in D |-> e.s.trig[d]] /\\ qexists' = [d \\in D |-> e.s.qexists[d]]
            /\\ act' = [op |-> e.op, k |-> e.k, d |-> e.d]
@@ -378,10 +406,20 @@ def run(chk, rng, thorough):
         for n in range(1, 2 * len(plan) + 3):
             for kind in ("drop", "dup", "delay"):
                 traces.append(record(dests, plan, {n: kind}))
+    # requests chained from completion callbacks, alone and with further requests before / after the chained one is answered
+    for plan in CHAIN_SHAPES:
+        traces.append(record(dests, plan, {}))
+        nfr = 4 * len(plan) + 2
+        for n in range(1, nfr + 1):
+            for kind in ("drop", "dup", "delay"):
+                traces.append(record(dests, plan, {n: kind}))
+        for a in range(1, 8):
+            for b in range(a + 1, 8):
+                traces.append(record(dests, plan, {a: "delay", b: "delay"}))
     # every request unanswered (silence): all retries, local abort, queue must advance
     traces.append(record(dests, [(0, 2), (0, 2), (0, 3)], {n: "drop" for n in range(1, 60)}))
     for i in range(300 if thorough else 40):
-        plan = [(rng.choice([0, 0, 1, 2000, 3000, 6500]), rng.choice(dests), rng.choice("cccccuda")) for _ in range(rng.randint(1, 6))]
+        plan = [(rng.choice([0, 0, 1, 2000, 3000, 6500]), rng.choice(dests), rng.choice("cccccudan")) for _ in range(rng.randint(1, 6))]
         faults = {rng.randint(1, 30): rng.choice(["drop", "dup", "delay"]) for _ in range(rng.randint(0, 8))}
         traces.append(record(dests, plan, faults, seed=rng.randrange(1 << 30), retries=rng.randint(0, 2)))
     for i, t in enumerate(traces):
@@ -451,6 +489,10 @@ USHAPES = [[(0, 2, "c"), (0, 2, "c"), (0, 2, "a"), (0, 2, "c")], [(0, 2, "c"), (
            [(0, 2, "u"), (0, 2, "u"), (0, 2, "c"), (0, 2, "d"), (0, 2, "u")]]
 
 
+CHAIN_SHAPES = [[(0, 2, "n")], [(0, 2, "n"), (500, 2, "c")], [(0, 2, "n"), (0, 3, "n"), (1, 2, "c")], [(0, 2, "c"), (0, 2, "n"), (3000, 2, "c")],
+                [(0, 2, "n"), (500, 2, "n"), (1500, 2, "c")]]
+
+
 def run_reply_matching(chk, rng, n_random, only, rename):
     """the part of the IOCB model another check (C11) relies on: several requests outstanding to one peer, unconfirmed
     requests in between -- every finished IOCB holds the answer to its own request"""
@@ -460,8 +502,14 @@ def run_reply_matching(chk, rng, n_random, only, rename):
         traces.append(record(dests, plan, {}))
         for n in range(1, 2 * len(plan) + 3):
             traces.append(record(dests, plan, {n: "delay"}))
+    for plan in CHAIN_SHAPES:
+        traces.append(record(dests, plan, {}))
+        for a in range(1, 8):
+            traces.append(record(dests, plan, {a: "delay"}))
+            for b in range(a + 1, 8):
+                traces.append(record(dests, plan, {a: "delay", b: "delay"}))
     for i in range(n_random):
-        plan = [(rng.choice([0, 0, 1, 2, 3000]), rng.choice(dests), rng.choice("ccccuda")) for _ in range(rng.randint(2, 6))]
+        plan = [(rng.choice([0, 0, 1, 2, 3000]), rng.choice(dests), rng.choice("ccccudan")) for _ in range(rng.randint(2, 6))]
         faults = {rng.randint(1, 20): rng.choice(["dup", "delay"]) for _ in range(rng.randint(0, 3))}
         traces.append(record(dests, plan, faults, seed=rng.randrange(1 << 30), retries=1))
     for i, t in enumerate(traces):
